@@ -100,6 +100,30 @@ CLAIMED = {
     note='The clause "lossless S-AdaGrad equals full-matrix AdaGrad" is declined as a solver claim (matrix-function identity modulo orthonormality: z3 unknown); it is '
          'only exercised numerically in replays. SVD stub contract: ordering; dimension <= 4, sketch <= 3.',
     design='§3 C16', technique='jaxpr->SMT symbolic evaluation, inductive step, stubbed SVD, z3'),
+  'C01': dict(
+    text='Bounded SMT verification (exact reals) of the algebraic skeleton of the inverse p-th root routines on their real jaxprs: every size traces (found, now fixed, '
+         'the 1x1 crash); one evaluation of the coupled-Newton loop BODY from an arbitrary invariant state re-establishes M = H^p D, symmetry, commutation, exactly-zero '
+         'padding and error = max|M - I_masked| (so in exact arithmetic the reported error EQUALS the residual at loop exit); the initial carry satisfies the invariant; '
+         'the convergence blend returns H or the old H and the reported error bounds the residual of what is returned; the eigh variant is symmetric; one power-iteration '
+         'step gives a Rayleigh quotient below every upper bound of the spectrum; all-padding input returns exactly 0.',
+    note='ONLY the exact-arithmetic part of the property: rounding slack proportional to the condition number, convergence within 100 iterations, LOBPCG deflation and '
+         'dtype are declined (floating-point iterative linear algebra); n <= 3, p <= 4; X^p(A+dI)=I for the eigh variant is stretch (z3 unknown).',
+    design='§3 C01', technique='jaxpr->SMT symbolic evaluation of loop bodies (inductive invariant), z3 nlsat'),
+  'C11': dict(
+    text='Bit-precise QF_FP verification (float32 with flush-to-zero as XLA:CPU executes; cvc5 + z3 raced per query) of the jaxprs of the real QuantizedValue.quantize / '
+         'to_float for EVERY finite float32 column of m rows: stored integers within +-127 / +-32767 (no wrap), round trip within bucket/2 + 2 ulp(maxabs), zeros and the '
+         'extracted diagonal exact, re-quantisation idempotent; three genuine boundary defects (max-abs = FLT_MAX overflows to inf; max-abs below 127*2^-126 flushes to 0; '
+         'subnormal diagonal entries flushed) are recorded as known findings, excluded by assumption and re-confirmed by replay on every run.',
+    note='m <= 2 rows per column in the quick tier (3 thorough); bfloat16 mode not encoded; columns independent (the jaxpr reduces over axis 0 only); no FMA contraction.',
+    design='§3 C11', technique='jaxpr->SMT in QF_FP (bit-precise float32 with FTZ), cvc5/z3 portfolio'),
+  'C17': dict(
+    text='Path-wise symbolic execution of the REAL create_redist_dict (its source executed with int/min/max/sum shadowed by proxy-aware versions) with bit-precise float32 '
+         'scores: per explored path one QF_BVFP query (float arithmetic first abstracted to fresh values, then bit-precise) decides whether some scores make it raise, assign '
+         'a rank outside [1, dim] or exceed group size x base rank; found (now fixed) the leftover-loop over-allocation and a float-cancellation assertion failure; models are '
+         'replayed on the real function.',
+    note='One group of n <= 2 (thorough 3) equal-dimension axes, dims <= 6; scoring rules and checkpoint I/O stubbed; branch feasibility during exploration is decided by '
+         'concrete witnesses or cvc5 (unknown = explored).',
+    design='§3 C17', technique='forking proxy symbolic execution of Python with QF_BVFP path queries (cvc5)'),
 }
 NA = {
   'C07': 'decided by tracing each configuration (abstract evaluation), no input/step/state variable is left for a solver to range over; '
